@@ -1,2 +1,80 @@
-import GoNeat.Spec.WFReg
-import GoNeat.Model.GenesisOk
+/-
+  Property C01 — every genetic operator and epoch yields only well-formed genomes.
+  Kind A: every theorem holds for every scalar type `W`, every random stream, every registry and all options.
+
+  The invariant preserved is `WFT g` = `WF g` (Spec/WF.lean) ∧ no trait has id 0 (`TraitWithId` treats 0 as "no
+  trait"; the property's quantifier says "trait ids consecutive as in every shipped genome", i.e. 1…n), and on the
+  registry side `RegInv reg g` = `RegCompat` ∧ `CounterAbove` ∧ `RegOk` (Spec/WFReg.lean).
+-/
+import GoNeat.Proofs.WFLemmas
+import GoNeat.Props.C04
+import GoNeat.Props.C05
+import GoNeat.Props.C06
+
+namespace GoNeat.C01
+open GoNeat Scalar
+variable {W : Type} [Scalar W]
+
+/-! ## ordered insertion -/
+
+/-- **`geneInsert` keeps the gene list strictly ascending** when the new innovation number is not present, and
+    the result is a permutation of old + new. -/
+theorem geneInsert_sorted (genes : List (Gene W)) (x : Gene W) (hs : GenesSorted genes)
+    (hnew : ∀ y ∈ genes, y.inn ≠ x.inn) :
+    GenesSorted (geneInsert genes x) ∧ (geneInsert genes x).Perm (x :: genes) :=
+  insertAt_sorted (fun y : Gene W => y.inn) genes x hs hnew
+
+/-- **`nodeInsert` keeps the node list strictly ascending** when the new id is not present; permutation of old + new. -/
+theorem nodeInsert_sorted (nodes : List Node) (n : Node) (hs : NodesSorted nodes) (hnew : ∀ m ∈ nodes, m.id ≠ n.id) :
+    NodesSorted (nodeInsert nodes n) ∧ (nodeInsert nodes n).Perm (n :: nodes) :=
+  insertAt_sorted (fun m : Node => m.id) nodes n hs hnew
+
+/-- the equal-key branch exactly as the code has it: a gene whose number equals the *last* number is appended
+    behind it; otherwise the gene is placed after all smaller numbers, i.e. directly *before* a gene with the same
+    number.  Either way the result then carries the number twice (not strictly ascending) — which is why every
+    caller guards the insertion (`haveGene` / `haveNode`). -/
+theorem geneInsert_spec (genes : List (Gene W)) (x : Gene W) (hs : GenesSorted genes) :
+    geneInsert genes x =
+      if (genes.map (·.inn)).getLast? = some x.inn then genes ++ [x]
+      else genes.filter (fun y => decide (y.inn < x.inn)) ++ x :: genes.filter (fun y => !decide (y.inn < x.inn)) :=
+  insertAt_spec (fun y : Gene W => y.inn) genes x hs
+
+theorem nodeInsert_spec (nodes : List Node) (n : Node) (hs : NodesSorted nodes) :
+    nodeInsert nodes n =
+      if (nodes.map (·.id)).getLast? = some n.id then nodes ++ [n]
+      else nodes.filter (fun m => decide (m.id < n.id)) ++ n :: nodes.filter (fun m => !decide (m.id < n.id)) :=
+  insertAt_spec (fun m : Node => m.id) nodes n hs
+
+/-! ## expression: a well-formed genome passes every error exit of `Genome.Genesis` -/
+
+theorem genesis_ok (g : Genome W) (h : WF g) : genesisErr g = none := by
+  unfold genesisErr
+  have h1 : g.genes.isEmpty = false := by
+    cases hg : g.genes with
+    | nil => exact absurd hg h.hasGene
+    | cons _ _ => rfl
+  have h2 : g.nodes.any (·.kind == Kind.output) = true := by
+    obtain ⟨n, hn, hk⟩ := h.hasOutput
+    exact List.any_eq_true.mpr ⟨n, hn, by simp [hk]⟩
+  have h3 : g.genes.any (fun x => x.en && !(g.hasNode x.src && g.hasNode x.dst)) = false := by
+    apply List.any_eq_false.mpr
+    intro x hx
+    obtain ⟨hs, hd⟩ := h.endpoints x hx
+    have e1 : g.hasNode x.src = true := C06.nodeById_isSome g.nodes x.src hs
+    have e2 : g.hasNode x.dst = true := C06.nodeById_isSome g.nodes x.dst hd
+    simp [e1, e2]
+  rw [h1, h2, h3]; rfl
+
+/-! ## duplication -/
+
+/-- **`duplicate` preserves well-formedness** (it returns the same genome under a new id) -/
+theorem duplicate_wf (g : Genome W) (newId : Int) (h : WFT g) (hm : g.modules = []) :
+    ∃ d, g.duplicate newId = .ok d ∧ d = { g with id := newId } ∧ WFT d ∧ Retains g d ∧ SameSkel g d := by
+  have hrefs : C06.RefsOk g := by
+    refine ⟨h.wf.traitRefs, h.wf.endpoints, ?_, ?_⟩ <;> simp [hm]
+  refine ⟨_, C06.duplicate_exact g newId hrefs, rfl, ?_, ?_, ?_⟩
+  · exact (SameSkel.wft (g := g) ⟨rfl, rfl, rfl⟩ h.wf.traitRefs h)
+  · exact Retains.refl g
+  · exact ⟨rfl, rfl, rfl⟩
+
+end GoNeat.C01
